@@ -11,12 +11,12 @@ get_eligible_assignments on pandas frames built from the abstract table under se
 of the geo IDs (names, ints, numeric strings, ints that look like positions).
 """
 import json
-import zlib
 
 from harness import tlc
 
 CFG = """SPECIFICATION Spec
 CONSTANTS MaxRows = %d
+ MaxDefRows = %d
  MaxQRows = %d
 INVARIANT TypeOK
 INVARIANT RefinesAccept
@@ -147,8 +147,10 @@ def run(res):
   import pandas as pd
   from matched_markets.methodology import geoeligibility as ge_mod
   thorough = res.tier == 'thorough'
-  maxrows, maxq = 3, 3
-  r = tlc.run_tlc('Eligibility', CFG % (maxrows, maxq), tlc.run_dir('C16'), workers=1, timeout=3000)
+  # quick: every table of <= 3 rows in the legal presentations, every single illegal deviation and every query
+  # on the tables of <= 2 rows; thorough: everything on <= 3 rows
+  maxrows, maxdef, maxq = (3, 3, 3) if thorough else (3, 2, 2)
+  r = tlc.run_tlc('Eligibility', CFG % (maxrows, maxdef, maxq), tlc.run_dir('C16'), workers=1, timeout=3000)
   tlc.require_clean(r, 'Eligibility')
   res.add_tlc(r, 'Eligibility')
   if r.violated:
@@ -168,18 +170,18 @@ def run(res):
   by_table = {}
   for c in qcases:
     by_table.setdefault(table_key(c['table']), []).append(c)
-  n_acc_tables = sum(1 for c in vcases if c['accept'])
+  n_acc_tables = sum(1 for c in vcases if c['accept'] and len(c['table']['rows']) <= maxq)
   if len(by_table) != n_acc_tables:
-    raise tlc.MachineryError('%d accepted tables but queries for %d' % (n_acc_tables, len(by_table)))
+    raise tlc.MachineryError('%d accepted tables to be queried but queries for %d' % (n_acc_tables, len(by_table)))
   res.exhaustive = True
-  res.rule = ('all tables of <= %d rows over the eight 0/1 triples x every single deviation (missing / duplicated '
-              'column, duplicated ID in same / other type, bad entry 2 / -1 / NaN / \'1\' at every position, geo as '
-              'index, extra column), and for every accepted table geos=None and every permutation of every subset '
-              '(empty list included) x indices False/True, enumerated by TLC; distinct = distinct (table, '
-              'presentation[, query]) replayed; non-trivial = every case (each runs the real validation or a real '
-              'query)') % maxrows
+  res.rule = ('all tables of <= %d rows over the eight 0/1 triples, clean / geo as index / extra column; on tables of '
+              '<= %d rows every single illegal deviation (missing / duplicated column, duplicated ID in same / other '
+              'type, bad entry 2 / -1 / NaN / \'1\' at every position); for every accepted table of <= %d rows '
+              'geos=None and every permutation of every subset (empty list included) x indices False/True; all '
+              'enumerated by TLC; distinct = distinct (table, presentation[, query]) replayed; non-trivial = every '
+              'case (each runs the real validation or a real query)') % (maxrows, maxdef, maxq)
   stat = {'accepted_replays': 0, 'rejected_replays': 0, 'query_replays': 0, 'query_raises': 0, 'empty_list': 0,
-          'none_geos': 0, 'indices_true': 0, 'reordered_indices': 0, 'sampled_out': 0}
+          'none_geos': 0, 'indices_true': 0, 'reordered_indices': 0}
   classes_seen = set()
   kinds_replayed = set()
   for idx, case in enumerate(vcases):
@@ -189,12 +191,9 @@ def run(res):
     if thorough:
       press = PRES_ORDER
     else:
-      # quick: one presentation per table (rotating); malformed three-row tables are sampled 1 in 6
-      # (every malformed table of <= 2 rows and every well-formed table is always replayed)
-      if nrows == 3 and not case['accept'] and zlib.crc32(('%d:%d' % (res.seed, idx)).encode()) % 6 != 0:
-        stat['sampled_out'] += 1
-        continue
-      press = [PRES_ORDER[(idx + res.seed) % len(PRES_ORDER)]]
+      # quick: two of the four presentations per table (rotating)
+      k = (idx + res.seed) % len(PRES_ORDER)
+      press = [PRES_ORDER[k], PRES_ORDER[(k + 1 + idx // 4 % 3) % len(PRES_ORDER)]]
     queries = by_table.get(table_key(table), []) if case['accept'] else []
     for pres in press:
       res.case_seen((idx, pres))
